@@ -138,11 +138,14 @@ def srt_markup(payload: str):
 
   def state():
     col = None
+    cols = []
     for name, c in stack:
       if name == "font":
         col = c
+        cols.append(c)
     names = {name for name, _ in stack}
-    return {"b": "b" in names, "i": "i" in names, "u": "u" in names, "color": col, "tagged_color": any(nm == "font" for nm, _ in stack)}
+    return {"b": "b" in names, "i": "i" in names, "u": "u" in names, "color": col, "tagged_color": any(nm == "font" for nm, _ in stack),
+            "color_stack": tuple(cols)}
 
   for m in _SRT_TAG.finditer(payload):
     st = state()
@@ -368,6 +371,7 @@ def vtt_markup(payload: str, classes=None):
     names = [nm for nm, _ in stack]
     color = bg = None
     cls_all = []
+    cols = []
     for _, cl in stack:
       for c in cl:
         cls_all.append(c)
@@ -376,11 +380,12 @@ def vtt_markup(payload: str, classes=None):
           continue
         if v is not None:
           color = parse_color(v)
+          cols.append(color)
         v = lookup(c, "background-color")
         if v is not None:
           bg = parse_color(v)
     return {"b": "b" in names, "i": "i" in names, "u": "u" in names, "color": color, "bg": bg, "rt": "rt" in names,
-            "classes": tuple(cls_all)}
+            "classes": tuple(cls_all), "color_stack": tuple(cols)}
 
   i, n = 0, len(payload)
   st = state()
